@@ -1,7 +1,6 @@
 """C09 — iterative solvers honour their termination contract."""
-import itertools
+import json
 import math
-import struct
 import core
 from core import Spec, standard_check, boollit
 
@@ -126,7 +125,8 @@ class C09(Spec):
     rule = ('all norm histories over the alphabet {zero, <atol, <rtol-only, above (distinct), equal-to-previous, NaN, +inf} '
             'up to maxiter+1 (+1 under complex step) norms, pruned only where a letter certainly ends the loop; '
             'x maxiter x (atol, rtol) x stall option grid x err_on_non_converge x 7 solver-class variants; plus random '
-            'binary64 histories with thresholds next to the tolerances; every case is a distinct (class, options, history)')
+            'binary64 histories with thresholds next to the tolerances; duplicates removed: every case is a distinct '
+            '(class, options, concrete history)')
     assumptions = ['the norm values are scripted (the wrapper calls the real _iter_get_norm, then returns the scripted float); '
                    'everything else in the loop is the real code of the real solver object on a real 2-component model',
                    'single process (no MPI); recording off']
@@ -148,7 +148,7 @@ class C09(Spec):
             top = top_big if cls in big else top_small
             stalls = STALLS if cls in NL else [(0, False, 1e-12)]
             for maxiter in range(0, top + 1):
-                for (atol, rtol) in TOLS:
+                for (atol, rtol) in (TOLS[:1] if quick and maxiter >= 3 else TOLS):
                     for st in stalls:
                         for err in (False, True):
                             for w in W(maxiter + 1, True):
@@ -165,7 +165,7 @@ class C09(Spec):
                             cases.append(mk(cls, maxiter, atol, rtol, st, err, True, concretize(w, atol, rtol) + [1000.0],
                                             '%s:cs:maxiter=%d' % (cls, maxiter)))
         # random binary64 histories
-        for _ in range(6000 if quick else 100000):
+        for _ in range(4000 if quick else 100000):
             cls = rng.choice(NL + LIN)
             maxiter = rng.choice([-1, 0, 1, 1, 2, 2, 3, 4, 5, 6, 8])
             atol = rng.choice([0.0, 1e-10, 1e-6, 1.0, 10.0 ** rng.uniform(-12, 1)])
@@ -182,7 +182,14 @@ class C09(Spec):
                 if first is None:
                     first = v if v != 0.0 else 1.0
             cases.append(mk(cls, maxiter, atol, rtol, st, rng.random() < 0.5, cs, norms, '%s:random' % cls))
-        return cases
+        # different words can denote the same concrete history (E after H at position 0, ...): keep one
+        seen, out = set(), []
+        for c in cases:
+            key = json.dumps([c[k] for k in sorted(c) if k != 'kind'])
+            if key not in seen:
+                seen.add(key)
+                out.append(c)
+        return out
 
     def search_gen(self, tier, rng):
         return self.gen(tier, rng)
